@@ -143,7 +143,9 @@ Inductive step :=
 | TSearch (ordered : bool) (f : filters) (o : sobs)     (* ordered = false: through the cosmosdb fake, which ignores ORDER BY *)
 | TList (ordered : bool) (limit : Z) (o : sobs)
 | TQuery (f : filters) (q : query) (b : binds)          (* cosmosdb: parsed text + parameters of buildSearchQuery *)
-| TListQuery (limit : Z) (q : query) (b : binds).       (* cosmosdb: parsed text + parameters List sends (hook VerifListQuery) *)
+| TListQuery (limit : Z) (q : query) (b : binds)        (* cosmosdb: parsed text + parameters List sends (hook VerifListQuery) *)
+| TExistsFault (r : read_reply) (id : N) (obs : nat)    (* cosmosdb: Exists while every point read is answered r (fake: SetReadItemErr) *)
+| TStreamFault (o : sobs).                              (* cosmosdb: Search / List while every query fails (fake: SetQueryItemsErr) *)
 
 Record case := { c_backend : backend; c_swarm : N; c_steps : list step }.
 
@@ -178,7 +180,7 @@ Definition agrees_search (ordered : bool) (m o : sobs) : bool :=
     && search_items_ok ordered (o_items m) (o_items o))).
 
 (* what: 1 op result, 2 search item after op, 3 exists, 4 search, 5 list, 6 query text, 7 query evaluation,
-         8 List query text, 9 List query evaluation *)
+         8 List query text, 9 List query evaluation, 10 Exists under a read fault, 11 stream under a query fault *)
 Definition fail (kind i what : nat) : list nat := [kind; i; what].
 
 Definition step_check (be : backend) (w : N) (i : nat) (s : cstate) (t : step) : cstate * list nat :=
@@ -226,6 +228,18 @@ Definition step_check (be : backend) (w : N) (i : nat) (s : cstate) (t : step) :
                else []
            | None => fail 2 i 7
            end))
+  | TExistsFault r id obs =>
+      (* the property under a fault: Exists may answer "false" only when the service said 404; any other
+         failed read must surface as an error, for stored and unknown ids alike *)
+      let m := match cs_exists_reply r with Some true => 1 | Some false => 0 | None => 2 end in
+      let decidable := match r with RStatus 404 => false | RFound => false | _ => true end in
+      (s, if decidable && negb (Nat.eqb obs 2) then fail 2 i 10
+          else if Nat.eqb obs m then [] else fail 1 i 10)
+  | TStreamFault o =>
+      let m := sobs_of (Some cosmos_stream_failed) in
+      (s, if Nat.eqb (o_class o) 0 && o_err o && o_closed o && Nat.eqb (length (o_items o)) 0
+          then (if agrees_search true m o then [] else fail 1 i 11)
+          else fail 2 i 11)
   | TListQuery limit q b =>
       let (mq, mb) := cs_list_query w limit in
       (s, (if query_eqb q mq && binds_eqb b mb then [] else fail 1 i 8) ++
